@@ -54,7 +54,7 @@ def preload():
 
 # ------------------------------------------------------------ reference --
 def compatible_clauses(k, n, planted):
-    if n > 8:
+    if n > 8 and (len(planted) <= 1 or math.comb(n, k) << k > 200000):
         # closed form for the large scripted cases (no or one total assignment)
         assert len(planted) <= 1 and all(len(a) == n for a in planted)
         return math.comb(n, k) * (2 ** k - len(planted))
@@ -192,6 +192,11 @@ def make_body(case):
         return body
 
 
+def _num(x):
+    # numbers with thousands of digits are shown by their size
+    return str(x) if x.bit_length() < 200 else 'a %d-bit number' % x.bit_length()
+
+
 def judge(case, x):
     """Violations of one completed execution."""
     kind = case['kind']
@@ -224,12 +229,12 @@ def judge(case, x):
         if not is_refusal:
             bad('exception:' + name, 'unexpected %s: %s' % (name, e))
         elif not must_fail:
-            bad('spurious-refusal', 'refused although k=%d<=n=%d and m=%d<=%d compatible' %
-                (k, n, m, cap))
+            bad('spurious-refusal', 'refused although k=%d<=n=%d and m=%d<=%s compatible (%s: %s)' %
+                (k, n, m, _num(cap), name, str(e)[:120]))
         return out, 'raised_ValueError'
     if must_fail:
         bad('missing-refusal', 'returned a formula although %s' %
-            ('k>n' if k > n else 'm=%d exceeds the %d compatible constraints' % (m, cap)))
+            ('k>n' if k > n else 'm=%d exceeds the %s compatible constraints' % (m, _num(cap))))
         return out, 'returned_formula'
     r = x['result']
     if r['n'] != n:
@@ -585,6 +590,18 @@ def cases(tier, seed):
         cs.append({'kind': 'kxor', 'k': 4, 'n': n, 'm': m, 'pname': 'dependent-7-rank-4',
                    'planted': planted, 'scripted': True, 'hashing': False, 'max_dev': 0,
                    'default': 'mix', 'default_seed': 1, 'horizon': 5000000, 'max_execs': 2})
+    # numbers too long to print (the count of possible clauses has thousands of
+    # digits), many planted assignments (a filter per assignment)
+    for (k, n_, m) in ((6000, 12000, 3), (5000, 10000, 2)):
+        cs.append({'kind': 'kcnf', 'k': k, 'n': n_, 'm': m, 'pname': 'huge-k', 'planted': [],
+                   'scripted': True, 'hashing': False, 'max_dev': 0, 'default': 'mix', 'default_seed': 1,
+                   'horizon': 5000000, 'max_execs': 1})
+    lots = [[v if ((a * 2654435761) >> v) & 1 else -v for v in range(1, 13)] for a in range(1, 1101)]
+    lots = [list(t) for t in sorted(set(map(tuple, lots)))]
+    for (kind, k, m) in (('kxor', 12, 5000), ('kxor', 1, 25), ('kcnf', 12, 5000)):
+        cs.append({'kind': kind, 'k': k, 'n': 12, 'm': m, 'pname': '%d-planted' % len(lots), 'planted': lots,
+                   'scripted': True, 'hashing': False, 'max_dev': 0, 'default': 'mix', 'default_seed': 1,
+                   'horizon': 5000000, 'max_execs': 1})
     # word-size thresholds: variables numbered 64 and above with two planted
     # assignments that differ only there; more than 64 planted assignments
     n = 70
